@@ -17,6 +17,8 @@ func allAkeMutations() []Mut {
 	}
 	// a participant that claims somebody else's key (its own signature does not match it)
 	ms = append(ms, MImpersonate(3), MImpersonate(4))
+	// a commitment field of another length than the hash (well-formed message)
+	ms = append(ms, MCommitHashLen(10), MCommitHashLen(40))
 	return ms
 }
 
